@@ -63,9 +63,8 @@ def tree_hash(paths):
 
 
 VARIANTS = {
-    # default: sanitizers on, but not the use-after-scope instrumentation (C09 uses 'full')
-    "san": ["-g", "-O1", "-fsanitize=address,undefined", "-fno-sanitize-recover=all",
-            "-fno-sanitize-address-use-after-scope", "-fno-omit-frame-pointer"],
+    # default: ASan (use-after-scope instrumentation on, clang's default) + UBSan
+    "san": ["-g", "-O1", "-fsanitize=address,undefined", "-fno-sanitize-recover=all", "-fno-omit-frame-pointer"],
     "full": ["-g", "-O1", "-fsanitize=address,undefined", "-fno-sanitize-recover=all",
              "-fno-omit-frame-pointer"],
     "plain": ["-g", "-O1"],
